@@ -6,6 +6,7 @@
 #include <xenium/harris_michael_hash_map.hpp>
 #include <xenium/harris_michael_list_based_set.hpp>
 
+#include <deque>
 #include <map>
 #include <set>
 
@@ -164,6 +165,11 @@ template <class C>
 struct SetAd {
   static constexpr bool is_set = true;
   C c;
+  static int mk(int k) { return k; }
+  template <class It>
+  static int keyof(const It& it) { return *it; }
+  template <class It>
+  static int64_t val(const It&) { return 0; }
   void exec(const POp& p, OpRec& o) {
     switch (p.kind) {
     case H_EMPLACE: o.r = c.emplace(p.key); break;
@@ -259,6 +265,10 @@ struct MapAd {
   using K = std::remove_const_t<typename C::value_type::first_type>;
   static K mk(int k) { return K(k); }
   static int ki(const K& k) { return (int)k; }
+  template <class It>
+  static int keyof(const It& it) { return ki(it->first); }
+  template <class It>
+  static int64_t val(const It& it) { return it->second; }
   C c;
   void exec(const POp& p, OpRec& o) {
     switch (p.kind) {
@@ -701,6 +711,226 @@ void run_harris(bool with_traversal, const ExecCtx& ctx, ExecOut& out) {
     }
 }
 
+// ---- sequential differential runs (C08: "all single-threaded operation sequences up to a bound and long random sequences
+// against std::set / std::map") ------------------------------------------------------------------------------------------
+// One execution = one sequence executed on the main thread only and compared step by step with std::map: either a slice of the
+// enumeration of ALL sequences of `exh_len` operations over two keys (execution index selects the slice), or a random sequence of
+// 100-500 operations over 3-40 keys. Besides the result of every operation the monitor compares the complete content by iteration
+// (for the set: in the order of the compare functor) after every few steps, and the iterator returned by erase(iterator).
+template <class Ad>
+struct SeqRunner {
+  Ad* ad = nullptr;
+  std::map<int, int64_t> model;
+  int order; // set: +1 ascending, -1 descending; map: 0 (bucket order, unspecified)
+  ExecOut& out;
+  std::deque<std::string> log;
+  uint64_t nops = 0;
+  int64_t next_val = 1;
+  SeqRunner(int ord, ExecOut& o) : order(ord), out(o) {}
+  void fresh() {
+    xrt::quiet_end();
+    delete ad;
+    ad = new Ad();
+    xrt::quiet_begin();
+    model.clear();
+    log.clear();
+  }
+  void bad(const char* kind, const std::string& msg) {
+    std::string w = fmt("after %" PRIu64 " operations; the last ones: ", nops);
+    for (auto& l : log)
+      w += l + "; ";
+    out.fail("C08", kind, msg + " - " + w);
+  }
+  bool step(uint8_t kind, int key) {
+    OpRec o;
+    o.thread = 0;
+    o.kind = kind;
+    o.a = key;
+    o.b = next_val++;
+    const bool present = model.count(key) != 0;
+    const int64_t old = present ? model[key] : ABSENT;
+    int next_key = -1; // erase(iterator): key the returned iterator refers to, 0 = end()
+    xrt::quiet_end();
+    if (kind == H_FIND_ERASE_IT) {
+      auto it = ad->c.find(Ad::mk(key));
+      o.r = it != ad->c.end();
+      if (o.r) {
+        o.b = Ad::val(it);
+        if (Ad::keyof(it) != key)
+          o.r2 = -999;
+        auto nx = ad->c.erase(std::move(it));
+        next_key = nx == ad->c.end() ? 0 : Ad::keyof(nx);
+      }
+    } else {
+      ad->exec(POp{kind, key, o.b}, o);
+    }
+    xrt::quiet_begin();
+    ++nops;
+    log.push_back(fmt("%s(k=%d,v=%" PRId64 ")->%" PRId64 "/%" PRId64, hname[kind], key, o.b, o.r, o.r2));
+    if (log.size() > 14)
+      log.pop_front();
+    if (o.r2 <= -997) {
+      bad("wrong-element", "the returned iterator refers to another key / factory call count wrong");
+      return false;
+    }
+    const bool set = Ad::is_set;
+    if (set && kind == H_INDEX)
+      kind = H_EMPLACE_OR_GET; // a set has no operator[]: the adapter executes emplace_or_get
+    switch (kind) {
+    case H_EMPLACE:
+    case H_EMPLACE_OR_GET:
+    case H_GET_OR_EMPLACE:
+    case H_GET_OR_EMPLACE_LAZY:
+      if ((o.r != 0) != !present) {
+        bad("seq-diff", fmt("%s of key %d returned %" PRId64 " but the key was %s", hname[kind], key, o.r, present ? "present" : "absent"));
+        return false;
+      }
+      if (!present)
+        model[key] = set ? 0 : o.b;
+      if (!set && kind != H_EMPLACE && o.r2 != model[key]) {
+        bad("seq-diff", fmt("%s of key %d yields value %" PRId64 ", the map holds %" PRId64, hname[kind], key, o.r2, model[key]));
+        return false;
+      }
+      break;
+    case H_ERASE:
+      if ((o.r != 0) != present) {
+        bad("seq-diff", fmt("erase of key %d returned %" PRId64 " but the key was %s", key, o.r, present ? "present" : "absent"));
+        return false;
+      }
+      model.erase(key);
+      break;
+    case H_FIND_ERASE_IT: {
+      if ((o.r != 0) != present || (present && !set && o.b != old)) {
+        bad("seq-diff", fmt("find of key %d returned %" PRId64 "/%" PRId64 " but the map holds %" PRId64, key, o.r, o.b, old));
+        return false;
+      }
+      if (present) {
+        int expect = -1; // -1: any remaining element or end
+        if (order) {
+          expect = 0;
+          if (order > 0) {
+            auto it = model.upper_bound(key);
+            if (it != model.end())
+              expect = it->first;
+          } else {
+            auto it = model.lower_bound(key);
+            if (it != model.begin())
+              expect = std::prev(it)->first;
+          }
+        }
+        model.erase(key);
+        if (expect >= 0 ? next_key != expect : (next_key != 0 && !model.count(next_key))) {
+          bad("erase-it-next", fmt("erase(iterator) of key %d returned an iterator to key %d (0 = end), expected %s", key, next_key,
+                                   expect >= 0 ? fmt("%d", expect).c_str() : "a remaining element or end"));
+          return false;
+        }
+      }
+      break;
+    }
+    case H_FIND:
+      if ((o.r != 0) != present || (present && !set && o.r2 != old)) {
+        bad("seq-diff", fmt("find of key %d returned %" PRId64 "/%" PRId64 " but the map holds %" PRId64, key, o.r, o.r2, old));
+        return false;
+      }
+      break;
+    case H_CONTAINS:
+      if ((o.r != 0) != present) {
+        bad("seq-diff", fmt("contains of key %d returned %" PRId64 " but the key was %s", key, o.r, present ? "present" : "absent"));
+        return false;
+      }
+      break;
+    case H_INDEX:
+      if (!present)
+        model[key] = 0;
+      if (o.r2 != model[key]) {
+        bad("seq-diff", fmt("operator[] of key %d yields %" PRId64 ", the map holds %" PRId64, key, o.r2, model[key]));
+        return false;
+      }
+      break;
+    }
+    return true;
+  }
+  bool compare_content() {
+    std::vector<std::pair<int, int64_t>> got;
+    xrt::quiet_end();
+    ad->iterate([&](int k, int64_t v) { got.push_back({k, v}); });
+    xrt::quiet_begin();
+    std::vector<std::pair<int, int64_t>> want(model.begin(), model.end());
+    if (order < 0)
+      std::reverse(want.begin(), want.end());
+    if (!order)
+      std::sort(got.begin(), got.end());
+    if (got != want) {
+      std::string g, w;
+      for (auto& e : got)
+        g += fmt("(%d,%" PRId64 ")", e.first, e.second);
+      for (auto& e : want)
+        w += fmt("(%d,%" PRId64 ")", e.first, e.second);
+      bad("seq-content", "iteration yields " + g + " but the reference container holds " + w);
+      return false;
+    }
+    return true;
+  }
+};
+
+constexpr uint8_t SEQ_KINDS[] = {H_EMPLACE, H_EMPLACE_OR_GET, H_GET_OR_EMPLACE, H_GET_OR_EMPLACE_LAZY, H_ERASE, H_FIND_ERASE_IT, H_FIND, H_CONTAINS, H_INDEX};
+
+template <class Ad>
+void run_seq(int order, const ExecCtx& ctx, ExecOut& out) {
+  Rng rng(ctx.seed);
+  SeqRunner<Ad> sr(order, out);
+  const int NK = sizeof SEQ_KINDS;
+  const int alphabet = NK * 2; // 9 operation kinds x 2 keys
+  bool ok = true;
+  uint64_t seqs = 0;
+  if (ctx.exec % 3 == 0) {
+    // slice of the exhaustive enumeration: all sequences of length 4 over the alphabet = 104 976; 243 slices of 432 sequences
+    const uint64_t total = (uint64_t)alphabet * alphabet * alphabet * alphabet;
+    const uint64_t per = 432;
+    uint64_t slice = (ctx.exec / 3) % (total / per);
+    for (uint64_t n = slice * per; ok && n < (slice + 1) * per; ++n) {
+      sr.fresh();
+      uint64_t x = n;
+      for (int i = 0; ok && i < 4; ++i, x /= (uint64_t)alphabet) {
+        int sym = (int)(x % (uint64_t)alphabet);
+        ok = sr.step(SEQ_KINDS[sym % NK], 1 + sym / NK);
+      }
+      ok = ok && sr.compare_content();
+      ++seqs;
+    }
+    counters().add("seq_exhaustive_sequences", seqs);
+    counters().add("seq_exhaustive_slices");
+  } else {
+    sr.fresh();
+    int nkeys = rng.chance(1, 2) ? rng.range(3, 8) : rng.range(9, 40);
+    int len = rng.range(100, 500);
+    int bias = (int)rng.below(3); // 0 balanced, 1 grow, 2 shrink
+    for (int i = 0; ok && i < len; ++i) {
+      uint32_t r = rng.below(100);
+      uint8_t kind = r < 18 ? H_EMPLACE : r < 26 ? H_EMPLACE_OR_GET : r < 32 ? H_GET_OR_EMPLACE : r < 38 ? H_GET_OR_EMPLACE_LAZY
+                     : r < 58 ? H_ERASE : r < 72 ? H_FIND_ERASE_IT : r < 86 ? H_FIND : r < 94 ? H_CONTAINS : H_INDEX;
+      if (bias == 1 && (kind == H_ERASE || kind == H_FIND_ERASE_IT) && rng.chance(1, 2))
+        kind = H_EMPLACE;
+      if (bias == 2 && kind <= H_GET_OR_EMPLACE_LAZY && rng.chance(1, 2))
+        kind = H_ERASE;
+      ok = sr.step(kind, rng.range(1, nkeys));
+      if (ok && (i % 16 == 15 || i + 1 == len))
+        ok = sr.compare_content();
+    }
+    counters().add("seq_random_sequences");
+    counters().max("max_seq_size", sr.model.size());
+  }
+  {
+    xrt::quiet_end();
+    delete sr.ad;
+    xrt::quiet_begin();
+  }
+  counters().add("ops", sr.nops);
+  counters().add("seq_ops", sr.nops);
+  out.hist_hash = mix64(ctx.seed, sr.nops);
+  out.nontrivial = true; // sequential by construction: distinct sequences, see the rule text
+}
+
 struct Cfg {
   std::string name;
   std::function<void(const ExecCtx&, ExecOut&)> run;
@@ -711,9 +941,10 @@ std::vector<Cfg>& table() {
 }
 namespace xp = xenium::policy;
 template <class Ad>
-void reg(const std::string& name) {
+void reg(const std::string& name, int order = 0) {
   table().push_back({"lin_" + name, [](const ExecCtx& c, ExecOut& o) { run_harris<Ad>(false, c, o); }});
   table().push_back({"trav_" + name, [](const ExecCtx& c, ExecOut& o) { run_harris<Ad>(true, c, o); }});
+  table().push_back({"seq_" + name, [order](const ExecCtx& c, ExecOut& o) { run_seq<Ad>(order, c, o); }});
 }
 template <size_t B, class H, bool M>
 using Map = xenium::harris_michael_hash_map<int, int64_t, xp::reclaimer<R>, xp::buckets<B>, xp::hash<H>, xp::memoize_hash<M>>;
@@ -723,8 +954,8 @@ using NMap = xenium::harris_michael_hash_map<NKey, int64_t, xp::reclaimer<R>, xp
 
 int main(int argc, char** argv) {
   xrt::quiet_begin();
-  reg<SetAd<xenium::harris_michael_list_based_set<int, xp::reclaimer<R>>>>("set_less");
-  reg<SetAd<xenium::harris_michael_list_based_set<int, xp::reclaimer<R>, xp::compare<std::greater<int>>>>>("set_greater");
+  reg<SetAd<xenium::harris_michael_list_based_set<int, xp::reclaimer<R>>>>("set_less", 1);
+  reg<SetAd<xenium::harris_michael_list_based_set<int, xp::reclaimer<R>, xp::compare<std::greater<int>>>>>("set_greater", -1);
   reg<MapAd<Map<1, HashId, false>>>("map_b1_id_m0");
   reg<MapAd<Map<1, HashRev, true>>>("map_b1_rev_m1");
   reg<MapAd<Map<1, HashRev, false>>>("map_b1_rev_m0");
